@@ -3,7 +3,7 @@
    [lexperm_enumerates] of Iter/PermEnum.v) of the permutations passing all prefix tests. *)
 From Coq Require Import List ZArith Lia Arith Bool Sorted Permutation.
 From Mamba Require Import Iter.Model Iter.Enum Iter.Lex Iter.Product Iter.ProductRP Iter.AlgX Iter.AlgXRun
-  Iter.PermUtil Iter.PermEnum.
+  Iter.Pattern Iter.PatternRun Iter.PermUtil Iter.PermEnum.
 Import ListNotations.
 Open Scope Z_scope.
 
@@ -24,4 +24,21 @@ Proof.
   - apply sorted_filter; auto.
   - intros x Hx. apply Hin in Hx. apply Hx.
   - intros x. rewrite Hin, filter_In, Hinp. unfold in_rpperm. tauto.
+Qed.
+
+(* PermutationsByPattern yields, in its own (depth-first) order, exactly the members of the
+   enumeration of LexicographicPermutations(n) all of whose standardised prefixes are accepted *)
+Theorem pattern_is_filter : forall f n,
+  exists l e lp ep,
+    drain (pattern_next f) pattern_value (S (length l)) (pattern_init n) = Some (l, e) /\
+    drain lexperm_next lexperm_value (S (length lp)) (lexperm_init n) = Some (lp, ep) /\
+    Permutation l (filter (patok f) lp) /\ exhausted (pattern_next f) e.
+Proof.
+  intros f n.
+  destruct (pattern_enumerates f n) as (l & e & Hd & Hnd & Hin & Hex & _).
+  destruct (lexperm_enumerates n) as (lp & ep & Hdp & _ & Hndp & Hinp & _).
+  exists l, e, lp, ep. split; [exact Hd|]. split; [apply Hdp; lia|]. split; [|exact Hex].
+  apply NoDup_Permutation; auto.
+  - apply NoDup_filter. auto.
+  - intros x. rewrite Hin, filter_In, Hinp. unfold in_pattern. tauto.
 Qed.
